@@ -218,6 +218,7 @@ type lkNode struct {
 	variants  map[string]*lkNode
 	called    bool // has at least one call site
 
+	relocks  [][3]string // (class, position of the Unlock, position of the second Lock)
 	accesses []lkAccess
 	locks    []lkLockSite
 	calls    []lkCall
@@ -723,6 +724,8 @@ type lkWalker struct {
 	exits  []lkState
 	locals map[*types.Var][]*lkNode // local variables bound to function literals
 	consts map[*types.Var]bool      // bool parameters with a known constant value (specialised variant)
+
+	released map[string]string // "class|base" -> position of an explicit Unlock seen earlier in this function
 }
 
 // assignedIn: v is assigned or has its address taken somewhere in body.
@@ -822,7 +825,7 @@ func (a *lkAnalysis) litNode(parent *lkNode, lit *ast.FuncLit) *lkNode {
 }
 
 func (a *lkAnalysis) analyse(n *lkNode) {
-	n.accesses, n.locks, n.calls, n.blocking = nil, nil, nil, nil
+	n.accesses, n.locks, n.calls, n.blocking, n.relocks = nil, nil, nil, nil, nil
 	n.locals = map[*types.Var][]*lkNode{}
 	n.extLocals = map[*types.Var]bool{}
 	w := &lkWalker{a: a, n: n, info: n.pkg.TypesInfo, locals: n.locals, consts: map[*types.Var]bool{}}
@@ -1420,7 +1423,29 @@ func (w *lkWalker) call(call *ast.CallExpr, st lkState, ctx string) lkState {
 			st.must[class] = true
 			st.may[class] = true
 			st.base[class] = lockBase(x)
+			if up, ok := w.released[class+"|"+lockBase(x)]; ok && ctx != "defer" {
+				// the same mutex of the same object is taken again after an
+				// explicit Unlock: the function's critical section is split
+				k := w.a.pos(call.Pos())
+				dup := false
+				for _, r := range w.n.relocks {
+					if r[2] == k {
+						dup = true
+					}
+				}
+				if !dup {
+					w.n.relocks = append(w.n.relocks, [3]string{class, up, k})
+				}
+			}
 		case -1:
+			if ctx != "defer" {
+				if w.released == nil {
+					w.released = map[string]string{}
+				}
+				if _, ok := w.released[class+"|"+lockBase(x)]; !ok {
+					w.released[class+"|"+lockBase(x)] = w.a.pos(call.Pos())
+				}
+			}
 			st = st.clone()
 			delete(st.must, class)
 			delete(st.may, class)
@@ -2480,6 +2505,24 @@ func (a *lkAnalysis) emit() {
 		}
 		first = false
 		fmt.Fprintf(sb, "  (%s, %s, %s, %s)", coqStr(v[0]), coqStr(v[1]), coqStr(v[2]), coqStrList([]string{k.class}))
+	}
+	sb.WriteString("\n].\n\n")
+
+	// split critical sections
+	sb.WriteString("(* functions that take a mutex of an object again after having released it (the work of the\n   function is NOT one atomic step with respect to that mutex):\n   (function, lock, position of the Unlock, position of the second Lock) *)\n")
+	sb.WriteString("Definition split_critical_sections : list (string * string * string * string) := [\n")
+	first = true
+	for _, n := range nodes {
+		if n.origin != nil {
+			continue
+		}
+		for _, r := range n.relocks {
+			if !first {
+				sb.WriteString(";\n")
+			}
+			first = false
+			fmt.Fprintf(sb, "  (%s, %s, %s, %s)", coqStr(n.key), coqStr(r[0]), coqStr(r[1]), coqStr(r[2]))
+		}
 	}
 	sb.WriteString("\n].\n\n")
 
